@@ -1256,6 +1256,22 @@ func (mgr *Manager) UpdateTag(name string, operation UpdateTagOperation) error {
 					todo = append(todo, t.referencedTags()...)
 				}
 			}
+			if newTag != nil {
+				// a converter can only be attached to a tag that neither matches on stream
+				// data nor references other tags (attachConverterToTag), so the query of a
+				// tag that keeps converters must not become such a query either: the next
+				// start would refuse to attach them again
+				f := newTag.features
+				if f.MainFeatures&query.FeatureFilterData != 0 || f.SubQueryFeatures&query.FeatureFilterData != 0 || len(f.MainTags) > 0 || len(f.SubQueryTags) > 0 {
+					remaining := len(tag.converters)
+					if info.convertersUpdated {
+						remaining = len(info.setConverterNames)
+					}
+					if remaining != 0 {
+						return fmt.Errorf("failed to update the query of tag %q: converters are attached and the new query is too complex", name)
+					}
+				}
+			}
 			if info.convertersUpdated {
 				features := tag.features
 				if newTag != nil {
